@@ -294,6 +294,20 @@ def c_signature_copied_within_transaction(world, pid, rng):
     return finish(world, pid, [ref.RTx(ins, t.outputs)], rng), {"badsig"}, set()
 
 
+def c_signatures_over_partial_message(world, pid, rng):
+    """every input signed by the right key, but only over its own reference + the outputs instead of the complete list of
+    references (an attacker could then recombine separately signed inputs)"""
+    own = pick_own(world, pid, rng, n=2)
+    if not own:
+        return None
+    outs = [(sum(v for _r, v, _k in own), rng.choice(world.keys)[1])]
+    ins = []
+    for (r, v, k) in own:
+        part = ref.RTx([(r[0], r[1], (ref.SIG_EQ,))], outs)
+        ins.append((r[0], r[1], (ref.SIG_EC, ref.sign(world.sk_by_pk[k], part.signable_bytes()))))
+    return finish(world, pid, [ref.RTx(ins, outs)], rng), {"badsig"}, set()
+
+
 def c_mangled_signature(world, pid, rng):
     t = world.make_rtx(pid, rng, max_in=2)
     if t is None:
@@ -339,6 +353,7 @@ C01_CLASSES = {
     "i-placeholder-for-signature": c_placeholder_for_signature, "j-lifted-signature": c_lifted_signature,
     "k-mangled-signature": c_mangled_signature, "l-output-locked-to-non-point": c_output_locked_to_non_point,
     "m-signature-copied-within-transaction": c_signature_copied_within_transaction,
+    "n-signatures-over-partial-message": c_signatures_over_partial_message,
 }
 
 
